@@ -58,6 +58,7 @@ struct Run<L: Language, N: Analysis<L>> {
     handles: Vec<(Term, Option<AppliedId>)>,
     out: Vec<String>,
     with_data: bool,
+    dump: bool,
 }
 
 fn jstr(s: &str) -> String {
@@ -70,6 +71,15 @@ fn jstr(s: &str) -> String {
 
 trait LangExt: Language + Sized + 'static {
     fn extract_with<N: Analysis<Self> + 'static>(r: &Run<Self, N>, cf: &str, h: &AppliedId) -> String where N::Data: std::fmt::Debug;
+    fn cond_rule<N: Analysis<Self> + 'static>(_name: &str, _l: &str, _r: &str, cond: &str, _x: Slot) -> Rewrite<Self, N> { panic!("natdiff: no condition {} for this language", cond) }
+}
+impl LangExt for Lm {
+    fn extract_with<N: Analysis<Self> + 'static>(r: &Run<Self, N>, cf: &str, h: &AppliedId) -> String where N::Data: std::fmt::Debug {
+        match cf { "AstSize" => r.extract_generic::<AstSize>(cf, h), _ => panic!("natdiff: cost function") }
+    }
+    fn cond_rule<N: Analysis<Self> + 'static>(name: &str, l: &str, r: &str, cond: &str, x: Slot) -> Rewrite<Self, N> {
+        match cond { "cond_b_independent_of" => Rewrite::new_if(name, l, r, cond_b_independent_of::<N>(x)), _ => panic!("natdiff: unknown condition {}", cond) }
+    }
 }
 impl LangExt for Lf {
     fn extract_with<N: Analysis<Self> + 'static>(r: &Run<Self, N>, cf: &str, h: &AppliedId) -> String where N::Data: std::fmt::Debug {
@@ -115,6 +125,12 @@ impl<L: LangExt, N: Analysis<L> + 'static> Run<L, N> where N::Data: std::fmt::De
         // pattern s-expression over name indices and ?vars -> pattern text with real slot names
         if toks[*pos] != "(" { let t = toks[*pos].clone(); *pos += 1; return if t.starts_with('?') { t } else { slot_of_value(self.names[t.parse::<usize>().unwrap()]).to_string() }; }
         *pos += 1;
+        if toks[*pos] == "subst" {      // (subst b x t) -> b[x := t]
+            *pos += 1;
+            let b = self.pat_text(toks, pos); let x = self.pat_text(toks, pos); let t = self.pat_text(toks, pos);
+            *pos += 1;
+            return format!("{}[{} := {}]", b, x, t);
+        }
         let mut out = format!("({}", toks[*pos]); *pos += 1;
         while toks[*pos] != ")" { out.push(' '); out.push_str(&self.pat_text(toks, pos)); }
         *pos += 1; out.push(')'); out
@@ -242,6 +258,27 @@ impl<L: LangExt, N: Analysis<L> + 'static> Run<L, N> where N::Data: std::fmt::De
             e.push('}'); cls.push(e);
         }
         s.push_str(&format!(",\"classes\":{{{}}}", cls.join(",")));
+        if self.dump {
+            let mut cs = Vec::new();
+            for i in &ids {
+                let ident = eg.mk_identity_applied_id(*i);
+                let slots: Vec<String> = ident.m.iter().map(|(_, v)| jstr(&self.name_of(v))).collect();
+                let mut nodes = Vec::new();
+                for n in eg.enodes_applied(&ident) {
+                    let mut parts = Vec::new();
+                    for e in n.to_syntax() {
+                        match e {
+                            SyntaxElem::String(x) => parts.push(jstr(&x)),
+                            SyntaxElem::Slot(x) => parts.push(jstr(&self.name_of(x))),
+                            SyntaxElem::AppliedId(a) => parts.push(format!("{{\"id\":{},\"map\":[{}]}}", a.id.0, a.m.iter().map(|(k, v)| format!("[{},{}]", jstr(&self.name_of(k)), jstr(&self.name_of(v)))).collect::<Vec<_>>().join(","))),
+                        }
+                    }
+                    nodes.push(format!("[{}]", parts.join(",")));
+                }
+                cs.push(format!("\"{}\":{{\"slots\":[{}],\"nodes\":[{}]}}", i.0, slots.join(","), nodes.join(",")));
+            }
+            s.push_str(&format!(",\"dump\":{{{}}}", cs.join(",")));
+        }
         // the crate's own consistency check, then the listed conditions
         let chk = if with_check { catch_unwind(AssertUnwindSafe(|| eg.check())) } else { Ok(()) };
         let mut bad: Vec<String> = Vec::new();
@@ -269,7 +306,11 @@ fn permute(v: &mut Vec<usize>, k: usize, f: &mut dyn FnMut(&[usize])) {
 }
 
 fn run_history<L: LangExt, N: Analysis<L> + Default + 'static>(names: Vec<u32>, late: Vec<usize>, ops: &[String], with_data: bool, light: bool) -> (Vec<String>, Option<String>) where N::Data: std::fmt::Debug {
-    let mut r: Run<L, N> = Run { eg: EGraph::new(N::default()), names, late, step: 0, handles: Vec::new(), out: Vec::new(), with_data };
+    run_history_opts::<L, N>(names, late, ops, with_data, light, false, "")
+}
+fn run_history_opts<L: LangExt, N: Analysis<L> + Default + 'static>(names: Vec<u32>, late: Vec<usize>, ops: &[String], with_data: bool, light: bool, dump: bool, subst: &str) -> (Vec<String>, Option<String>) where N::Data: std::fmt::Debug {
+    let eg0 = match subst { "ExtractionSubst" => EGraph::with_subst_method::<ExtractionSubst>(N::default()), "SynExprSubst" => EGraph::with_subst_method::<SynExprSubst>(N::default()), _ => EGraph::new(N::default()) };
+    let mut r: Run<L, N> = Run { eg: eg0, names, late, step: 0, handles: Vec::new(), out: Vec::new(), with_data, dump };
     let mut panic_msg = None;
     r.snapshot2("new", "", !light);
     let nops = ops.len();
@@ -348,11 +389,14 @@ fn run_history<L: LangExt, N: Analysis<L> + Default + 'static>(names: Vec<u32>, 
                     let mut rws: Vec<Rewrite<L, N>> = Vec::new();
                     for part in rest.split(';') {
                         let f: Vec<&str> = part.split('|').collect();
-                        if f.len() != 3 { continue; }
+                        if f.len() != 3 && f.len() != 4 { continue; }
                         let (lt, rt) = (tokenize(f[1]), tokenize(f[2]));
                         let (mut p1, mut p2) = (0, 0);
                         let (l, rr) = (r.pat_text(&lt, &mut p1), r.pat_text(&rt, &mut p2));
-                        rws.push(Rewrite::new(f[0].trim(), &l, &rr));
+                        if f.len() == 4 {      // name | lhs | rhs | <condition> <name index>
+                            let c: Vec<&str> = f[3].split_whitespace().collect();
+                            rws.push(L::cond_rule::<N>(f[0].trim(), &l, &rr, c[0], slot_of_value(r.names[c[1].parse::<usize>().unwrap()])));
+                        } else { rws.push(Rewrite::new(f[0].trim(), &l, &rr)); }
                     }
                     let ret = apply_rewrites(&mut r.eg, &rws);
                     extra = format!(",\"rewrite_ret\":{}", ret);
@@ -620,7 +664,9 @@ fn run_case(case: &[String]) -> String {
     // case <id> <lang> <analysis> <f0> <named_max> ; names v0 v1 ... ; ops...
     let head: Vec<&str> = case[0].split_whitespace().collect();
     let (id, lang, analysis, f0, named): (&str, &str, &str, u32, u32) = (head[1], head[2], head[3], head[4].parse().unwrap(), head[5].parse().unwrap());
-    let light = head.len() > 6 && head[6] == "light";
+    let light = head[6..].iter().any(|x| *x == "light");
+    let dump = head[6..].iter().any(|x| *x == "dump");
+    let subst: &str = head[6..].iter().find_map(|x| x.strip_prefix("subst=")).unwrap_or("");
     let names: Vec<u32> = case[1].split_whitespace().skip(1).map(|x| x.parse().unwrap()).collect();
     // bring the thread's slot table into the state the template assumes
     let need_named = names.iter().filter(|v| *v % 4 == 2).map(|v| (v - 2) / 4 + 1).max().unwrap_or(0).min(named);
@@ -639,6 +685,7 @@ fn run_case(case: &[String]) -> String {
         ("Lb", "()") => run_history::<Lb, ()>(names, late, &ops, false, light),
         ("Lb", "MinSize") => run_history::<Lb, MinSize>(names, late, &ops, true, light),
         ("Lb", "Depth") => run_history::<Lb, Depth>(names, late, &ops, true, light),
+        ("Lm", "()") => run_history_opts::<Lm, ()>(names, late, &ops, false, light, dump, subst),
         _ => panic!("natdiff: unsupported instantiation {} {}", lang, analysis),
     };
     format!("{{\"case\":{},\"steps\":[{}],\"panic\":{}}}", jstr(id), steps.join(","), match panic_msg { Some(m) => jstr(&m), None => "null".to_string() })
